@@ -14,15 +14,17 @@ Definition bank_of (l : list (nat * nat * Z)) : bank :=
   fun a d => match find (fun x => Nat.eqb (fst (fst x)) a && Nat.eqb (snd (fst x)) d) l with
              | Some x => snd x | None => 0 end.
 
-Definition env_of (l : list (nat * (nat * nat * nat))) : env :=
+Definition env_of (l : list (nat * (nat * nat * nat))) (blocked : list nat) : env :=
   let get := fun p => match find (fun x => Nat.eqb (fst x) p) l with Some x => snd x | None => (0, 0, 0)%nat end in
-  mkEnv (fun p => fst (fst (get p))) (fun p => snd (fst (get p))) (fun p => snd (get p)).
+  mkEnv (fun p => fst (fst (get p))) (fun p => snd (fst (get p))) (fun p => snd (get p))
+        (fun a => existsb (Nat.eqb a) blocked).
 
 Definition fail_choice : choice := mkCh true [] [].
 
 Record qcase := mkQ {
   q_id : Z;
   q_pools : list (nat * (nat * nat * nat));      (* pool id -> (pool address, rebalance treasury, revenue address) *)
+  q_blocked : list nat;                           (* addresses on bank's blocked list (BankKeeper.BlockedAddr) *)
   q_init : list (nat * nat * Z);                  (* balances when the block starts *)
   q_txs : list (msg * choice * Z);                (* message, dry-run amounts, observed result kind (0 ok / 1 err) *)
   q_script : list (choice * choice * bool);       (* per iteration of the batch loop *)
@@ -56,7 +58,7 @@ Fixpoint first_diff (b : bank) (l : list (nat * nat * Z)) (i : Z) : list Z :=
   end.
 
 Definition replay (c : qcase) : list Z :=
-  let e := env_of (q_pools c) in
+  let e := env_of (q_pools c) (q_blocked c) in
   let '(s, bad) := run_txs_chk e (mkSt (bank_of (q_init c)) [] 0) (q_txs c) 0 in
   match bad with
   | _ :: _ => bad
